@@ -99,6 +99,9 @@ def attr_trees(tier):
         return tuple(a)
     for t, i, c in itertools.product(T_VALUES, ids, classes):
         out.append(('single', (('e', 'a', attrs(t, i, c), ()),)))
+    for t in T_VALUES:
+        if t is not None:
+            out.append(('type-attr', (('e', 'r', (), (('e', 'a', (('type', t),), ()), ('e', 'b', (('type', t.upper() if t else t), ('t', t)), ()))),)))
     for t1, t2 in itertools.product(T_VALUES, repeat=2):
         out.append(('nested', (('e', 'a', attrs(t1, None, None), (('e', 'b', attrs(t2, 'i', 'c'), ()),)),)))
         out.append(('siblings', (('e', 'r', (), (('e', 'a', attrs(t1, None, 'c'), ()), ('e', 'b', attrs(t2, None, None), ()))),)))
@@ -218,6 +221,10 @@ def attr_selectors(tier):
     out.append((S.cx(S.cp(None, ('attr', None, 'class', '~=', 'd', None))),))
     out.append((S.cx(S.cp(None, ('attr', None, 'class', '=', 'c d', None))),))
     out.append((S.cx(S.cp(None, ('attr', None, 'id', '=', 'i', None))),))
+    for op in OPS:
+        for v in ('v', 'x', 'v w'):
+            for flag in (None, 'i', 's') if tier != 'quick' else (None, 'i'):
+                out.append((S.cx(S.cp(None, ('attr', None, 'type', op, v, flag))),))
     # names spelled in another case: HTML folds them, XML and XHTML do not
     for nm in ('T', 'ID', 'Class'):
         out.append((S.cx(S.cp(None, ('attr', None, nm, None, None, None))),))
